@@ -34,6 +34,8 @@ pub struct EnumState {
     pub max_depth: Option<usize>,
     /// choice-index path of every execution that has ended (in order)
     pub paths: Vec<Vec<usize>>,
+    /// values served for the first draws of every execution (beyond it: a fixed splitmix stream)
+    pub draw_stream: Vec<u64>,
     snapshotted: bool,
 }
 
@@ -135,6 +137,9 @@ impl Scheduler for EnumScheduler {
         let mut st = self.st.lock().unwrap();
         let v = st.draws;
         st.draws += 1;
+        if let Some(x) = st.draw_stream.get(v as usize) {
+            return *x;
+        }
         // a simple fixed stream: splitmix of the draw index
         splitmix64(v.wrapping_add(0x9E37_79B9_7F4A_7C15))
     }
